@@ -246,7 +246,9 @@ def content(key_idx: int, gen: int, size: int) -> bytes:
 
 @st.composite
 def histories(draw, max_ops: int = 50):
-    cap = draw(st.sampled_from([1, 2, 3, 4, 6, 8, 10, 12, 16, 24, 48, 96]))
+    # byte-sized stores for the accounting, a few page-sized ones (the disk code moves data in 4096-byte chunks)
+    cap = draw(st.sampled_from([1, 2, 3, 4, 6, 8, 10, 12, 16, 24, 48, 96, 1, 2, 3, 4, 6, 8, 10, 12, 16, 24, 48, 96, 8192, 12288]))
+    paged = cap >= 4096
     n = draw(st.integers(5, max_ops))
     ops = []
     kinds = ["alloc", "alloc", "alloc", "finish", "finish", "get", "get", "get", "close", "close", "purge", "purge", "job_ok", "job_ok",
@@ -262,11 +264,13 @@ def histories(draw, max_ops: int = 50):
     for _ in range(n):
         k = draw(st.sampled_from(kinds))
         if k in ("write", "rewrite"):
-            ops.append([k, draw(st.integers(0, 59)), draw(st.integers(cap // 2 + 1, cap))])
+            ops.append([k, draw(st.integers(0, 59)), draw(st.sampled_from([4096, 8192, 4095, 4097, cap])) if paged else draw(st.integers(cap // 2 + 1, cap))])
         elif k in ("roundtrip", "roundtrip_fail"):
             ops.append([k, draw(st.integers(0, 59))])
         elif k in ("alloc", "alloc_p"):
-            if churn:
+            if paged:
+                size = draw(st.sampled_from([4096, 4096, 8192, 4095, 4097, 1, cap]))
+            elif churn:
                 size = draw(st.integers(cap // 2 + 1, cap))
             else:
                 size = draw(st.one_of(st.integers(max(1, cap // 3), max(1, (2 * cap) // 3)), st.integers(1, max(1, cap // 2)),
@@ -287,13 +291,15 @@ def histories(draw, max_ops: int = 50):
             ops.append([k, draw(st.sampled_from(["ms", "ms", "min", "16min"]))])
         else:
             ops.append([k])
-    return {"capacity": cap, "ops": ops, "via_server": draw(st.integers(0, 2)) == 0, "nkeys": nkeys}
+    configured = draw(st.sampled_from([None, None, None, None, cap + 1, 3 * cap, 1 << 62]))
+    return {"capacity": cap, "ops": ops, "via_server": draw(st.integers(0, 2)) == 0, "nkeys": nkeys, "configured": configured}
 
 
 # ------------------------------------------------------------------------------------------------ machine
 
 class Machine:
-    def __init__(self, capacity: int, known_f20: bool = False, via_server: bool = False, nkeys: int = len(KEYS)):
+    def __init__(self, capacity: int, known_f20: bool = False, via_server: bool = False, nkeys: int = len(KEYS),
+                 configured: int | None = None):
         self.nkeys = nkeys
         _case_no[0] += 1
         self.prefix = f"v{os.getpid() % 100000}x{_case_no[0] % 100000}"
@@ -303,11 +309,13 @@ class Machine:
         self._saved = (dataset.time, dataset.uuid, dataset.get_capacity, dataset.disk.Disk)
         dataset.time = self.clock
         dataset.uuid = _Uuid()
-        dataset.get_capacity = lambda: 1 << 50
+        # `configured` > capacity: the store is configured with more than /dev/shm offers (what the mount offers is `capacity`);
+        # it documents that it trims itself to what is available
+        dataset.get_capacity = (lambda: 1 << 50) if configured is None else (lambda: capacity)
         self.ldisk = LazyDisk()
         dataset.disk.Disk = lambda: self.ldisk
         try:
-            self.m = dataset.Manager(self.prefix, capacity)
+            self.m = dataset.Manager(self.prefix, capacity if configured is None else configured)
         finally:
             dataset.disk.Disk = self._saved[3]
         self.m.pageout_one = _CheckedLock("pageout_one")
@@ -889,7 +897,7 @@ class Machine:
 
 
 def run_history(case: dict, known_f20: bool = False) -> Machine:
-    m = Machine(case["capacity"], known_f20, bool(case.get("via_server")), int(case.get("nkeys", len(KEYS))))
+    m = Machine(case["capacity"], known_f20, bool(case.get("via_server")), int(case.get("nkeys", len(KEYS))), case.get("configured"))
     try:
         m.run(case["ops"])
     finally:
